@@ -52,14 +52,14 @@ pub mod ym_duration;
 pub mod zone;
 
 /// Regular expression pattern for parsing dates.
-const DATE_PATTERN: &str = r#"(?P<sign>-)?(?P<year>[1-9][0-9]{3,8})-(?P<month>[0-9]{2})-(?P<day>[0-9]{2})"#;
+const DATE_PATTERN: &str = r#"(?P<sign>-)?(?P<year>[1-9][0-9]{3,8}|0[0-9]{3})-(?P<month>[0-9]{2})-(?P<day>[0-9]{2})"#;
 
 /// Regular expression pattern for parsing time.
 const TIME_PATTERN: &str = r#"(?P<hours>[0-9]{2}):(?P<minutes>[0-9]{2}):(?P<seconds>[0-9]{2})(?P<fractional>\.[0-9]+)?"#;
 
 /// Regular expression patterns for parsing time zones.
 const ZULU_PATTERN: &str = r#"(?P<zulu>[zZ])"#;
-const ZONE_PATTERN: &str = r#"@(?P<zone>[a-zA-Z_/]+)"#;
+const ZONE_PATTERN: &str = r#"@(?P<zone>[a-zA-Z0-9_/+-]+)"#;
 const OFFSET_PATTERN: &str = r#"(?P<offSign>[+-])(?P<offHours>[0-9]{2}):(?P<offMinutes>[0-9]{2})(:(?P<offSeconds>[0-9]{2}))?"#;
 
 /// Number of nanoseconds in a second.
